@@ -14,34 +14,75 @@ META = dict(
                 'the state after 0 or >= 16 bytes of the header+data stream; no truncation; holes read as zero) and every clock > 0, load returns '
                 'nothing, the new value, what the old file gave, or an explicitly characterised CRC-32 collision (deadline, length and CRC of the '
                 'header it is read under, every byte the old file byte / new payload byte / hole zero at its position, and not the value that '
-                'header was written for); the unconditional statement is refuted by a concrete 6-byte witness (KNOWN FINDING '
+                'header was written for); the same holds for EVERY old file (planted garbage shorter than a header included) when the old file is read '
+                'zero-padded to 16 bytes, and a 12-byte planted file completed by a hole is a concrete witness that this reading returns a value never '
+                'saved (KNOWN FINDING short-garbage-header-completed-by-hole, replayed on every run); the unconditional statement is refuted by a concrete 6-byte witness (KNOWN FINDING '
                 'torn-write-crc32-collision, replayed on the real storage on every run), while a torn state that differs from the new value only '
                 'inside a window of <= 4 consecutive bytes is proved to be rejected (CRC-32 burst theorem, all lengths). The crash family of the '
                 'property text (stream prefix x sector subset) is an instance; no progress = old file, full progress = the completed save. What load returns lies inside the file and has the '
-                'length of the header. Without a crash save-then-load returns the value iff not expired, over any old file. By induction over '
+                'length of the header. Without a crash save-then-load returns the value iff not expired, over any old file. write_all and read_all with short '
+                'write()/read() calls are modelled call by call (the loops advance their buffer): for every cut pattern a save made of short writes '
+                'stores exactly the record of the completed save and a load whose data reads are cut returns exactly what the plain load returns; the '
+                'old witnesses of the pre-repair loops are regression Examples. '
+                'By induction over '
                 'every history of saves/crashed saves/removes/loads/gc: the file is empty, starts with a zero hole or with the header of an earlier '
                 'save, so the crash theorem applies at every point and any value ever returned carries the deadline, length and CRC of some '
-                'earlier save. gc keeps exactly the entries whose name is not 32 hex digits or whose timestamp is readable and not past, never '
-                'removes a record that load would accept, never touches foreign names; load removes what it cannot read and nothing else. session_sid::valid_sid lets exactly I + 32 lower-case hex digits through '
-                '(always a name gc looks at) and the second expiry test of session_sid::load is shown dead. The buffer that read_from_file '
-                'allocates from the size field is never larger than a saved payload after any history of saves and crashes, but a planted '
-                '19-byte file asks for gigabytes (KNOWN FINDING garbage-size-field-bad-alloc: std::bad_alloc escapes load, nothing removed). The '
+                'earlier save; the same for histories that start from an arbitrary planted file (then also: or the header fields of the planted file '
+                'read zero-padded), and for histories that contain saves made of short writes and loads over short reads (transparent, by erasure). gc keeps exactly the entries whose name is not 32 hex digits or whose timestamp is readable and not past, never '
+                'removes a record that load would accept at that or any later clock (gc and load at any earlier point are transparent for later loads), never touches foreign names; load removes what it cannot read and nothing else. session_sid::valid_sid lets exactly I + 32 lower-case hex digits through '
+                '(always a name gc looks at) and the second expiry test of session_sid::load is shown dead. read_from_file compares the size field '
+                'with the file length (fstat) before it allocates its buffer: for every file, garbage included, the buffer requested is at most '
+                'the number of bytes the file holds behind its header (0 when the record is refused), exactly the length of the value when one is '
+                'returned, and at most the length of a saved payload after any history of saves and crashes; a returned value always fits into the '
+                'file (16 + length <= file length, for every value of the size field); load under a memory limit that covers the file itself is the '
+                'plain load. A record followed by trailing bytes is still accepted. The planted 19-byte file with a 2 GiB size field (the repaired '
+                'defect) is a regression Example: no session, file removed, nothing requested. The '
                 'bundled CRC table of private/crc32.h is regenerated from source and proved equal to the bit model, and the table-driven loop is '
-                'proved equal to the bit-by-bit CRC; the zlib path, the write sequence and every other code path are tied by running the '
+                'proved equal to the bit-by-bit CRC; the per-character test of session_sid::valid_sid is regenerated from source and proved equal to '
+                'the model on all 256 bytes; the zlib path, the write sequence and every other code path are tied by running the '
                 'extracted model and the real storage on the same scripts.'),
     level_note=('Trusted: Coq kernel + vm_compute; ExtrOcamlBasic extraction; the hand model of the C++ control flow (tied by '
-                'correspondence only, the only source-generated leaf is the CRC table); the crash model itself (sector = 512 bytes, header '
+                'correspondence only; the source-generated leafs are the CRC table and the valid_sid character test); the crash model itself (sector = 512 bytes, header '
                 'atomic, write-back of a sector shows a prefix of the write stream, unwritten bytes of an extended file read as zero, no '
                 'reordering across fsync because there is none); harness materialises crash states from the recorded write() calls of the '
-                'real save. Not covered: short writes/ENOSPC (write_all does not advance its buffer), fcntl locking across processes and the '
-                'per-sid mutex (single-threaded scripts; both lock modes are executed), headers whose size field is >= 2^31 are modelled but '
-                'never executed (2-4 GiB allocation), payloads >= 2^31 bytes, an old file of 1..15 bytes (cannot arise from saves or their '
-                'crash states, proved), clock <= 0.'),
+                'real save. Not covered: ENOSPC/EINTR error paths (short reads of the header fields and of the gc timestamp are executed and compared with '
+                'the plain reader; the Coq short-read model covers the data buffer), fcntl locking across processes and the '
+                'per-sid mutex (concurrency is exercised by the thread/process scripts and judged by the oracle only; both lock modes are '
+                'executed), size fields >= 2^31 are executed only on short files (refused by the length test; loaded under an address-space '
+                'limit with operator new watched); the branch where a file of more than 2 GiB carries such a size field (int-typed read count '
+                'goes negative, zero buffer is CRC-checked) is modelled but never executed, payloads >= 2^31 bytes, clock <= 0. The history theorems start from an absent file (planted files are covered by the '
+                'single-crash theorem C18_crash_safe_any_old, not by the invariant).'),
 )
 
 GEN = {
     'Gen_crc': dict(src=os.path.join(vlib.VERIF, 'harness', 'C18_crc_tu.cpp'), arrays=[('crcTable', 'g_crc_table')]),
 }
+
+
+
+def gen_sid_leaf(ctx):
+    """coq/gen/Gen_C18_sid.v: the per-character test of session_sid::valid_sid, regenerated from the current source. tools/cxx2v.py
+    translates the loop body of valid_sid as a per-byte transducer; the body rejects with `return false`, which the transducer form
+    cannot type, so the source-derived test expression is re-wrapped as a bool function (same device as checks/C06.py)."""
+    import re, cxx2v
+    out = os.path.join(vlib.COQ, 'gen', 'Gen_C18_sid.v')
+    raw = os.path.join(ctx.workdir, 'gen_c18_sid_raw.v')
+    try:
+        with vlib.Lock('gen-Gen_C18_sid'):
+            cxx2v.generate(dict(src=os.path.join(vlib.REPO, 'src/session_sid.cpp'), transducers=[('valid_sid', 'g_valid_sid_step')],
+                                incs=vlib.repo_incs()), raw)
+            txt = open(raw).read()
+            m = re.search(r'Definition g_valid_sid_step \(byte : Z\) : list Z :=\s*(.*)\(if \(negb (\w+)\) then false else \[\]\)(\)*)\.', txt, re.S)
+            if not m:
+                raise cxx2v.Unsupported('loop body of valid_sid is no longer `char c = ..; bool ok = <test>; if(!ok) return false;`')
+            head = txt[:txt.index('Definition g_valid_sid_step')]
+            body = 'Definition g_c18_low_x_digit (byte : Z) : bool :=\n  ' + m.group(1) + m.group(2) + m.group(3) + '.\n'
+            vlib.write_if_changed(out, head + body)
+        return None
+    except Exception as e:
+        vlib.write_if_changed(out, '(* translator failed *)\nDefinition broken : False := I.\n')
+        return str(e)
+
 
 V0 = '0123456789abcdef0123456789abcdef'
 V1 = 'ABCDEF0123456789abcdefABCDEF0123'
@@ -101,8 +142,8 @@ def force_crc(data, pos, target):
 
 
 def garbage(rng, ln):
-    """random bytes; the size field is kept small: the real code allocates `size` bytes before it looks at the file length, and a size
-    field >= 2^31 (2-4 GiB allocation) is modelled but not executed"""
+    """random bytes; the size field is kept small here (a regression of the length test would allocate `size` bytes in every harness
+    process at once): huge size fields are loaded under an address-space limit in G11"""
     raw = rb(rng, ln)
     if len(raw) >= 16:
         raw = raw[:12] + struct.pack('<I', rng.choice([0, 1, 2, ln - 16, max(0, ln - 17), ln - 15, 24, 2 ** 16, 2 ** 20 + 3])) + raw[16:]
@@ -322,21 +363,91 @@ def gen_cases(ctx):
     for _ in range(ctx.scale(8, 40)):
         cases.append(case(['U:0:%d:%d:%d:%d' % (rng.choice([5000, 9000]), rng.choice([1, 2, 3]), ctx.scale(300, 1500), rng.choice([1, 100, 480, 3000])), L(0, 100)],
                           flock=1))
-    # G11: planted files whose size field is far larger than the file, loaded with 256 MiB of address space to spare: the buffer is allocated
-    # from the size field before the file length is known (KNOWN FINDING garbage-size-field-bad-alloc when the allocation throws)
-    for _ in range(ctx.scale(60, 400)):
-        size = rng.choice([2 ** 30, 2 ** 30 + 5, 2 ** 31 - 16, 2 ** 31, 2 ** 32 - 1, 0, 3, 2 ** 20, 2 ** 24 + 1])
+    # G11: planted files whose size field is far larger than the file, loaded with 256 MiB of address space to spare (M) and with every
+    # operator new of the load watched: the size field must be compared with the file length before the buffer is allocated
+    # (defect garbage-size-field-bad-alloc, repaired in /repo c47a865: the answer is no session, the file is removed, nothing is allocated)
+    for _ in range(ctx.scale(90, 600)):
+        size = rng.choice([2 ** 30, 2 ** 30 + 5, 2 ** 31 - 16, 2 ** 31 - 1, 2 ** 31, 2 ** 31 + 1, 2 ** 32 - 1, 2 ** 32 - 16, 0, 3, 2 ** 20, 2 ** 24 + 1, 4097, 2 ** 16])
         t = rng.choice([5000, 5000, 1000, 999, I64MAX])
         tail = rb(rng, rng.choice([0, 3, 3, 40]))
-        raw = struct.pack('<qII', t, rng.choice([0, zlib.crc32(tail), rng.getrandbits(32)]), size) + tail
+        raw = struct.pack('<qII', t, rng.choice([0, zlib.crc32(tail), zlib.crc32(bytes(min(size, 2 ** 20))), rng.getrandbits(32)]), size) + tail
         if rng.random() < 0.15:
             raw = raw[:rng.choice([8, 12, 15])]
         cases.append(case([P(0, raw), 'M:0:1000:256', 'G:1000', 'M:0:1000:256', 'G:%d' % rng.choice([1001, 6000])], flock=rng.randrange(2)))
+    # G11b: the boundary of the new test, st_size - 16 < size: size field = bytes behind the header -1, +0, +1, +2 (and the same
+    # with trailing bytes: a record followed by other bytes is still a record), CRC of exactly `size` bytes / of the bytes present /
+    # of the zero-padded bytes, so that each variant is accepted by a reader that gets that one detail wrong
+    for _ in range(ctx.scale(250, 2500)):
+        n = rng.choice([0, 1, 2, 3, 5, 16, 100, 495, 496, 497, 600, 5000])
+        d = rb(rng, n)
+        size = max(0, n + rng.choice([-1, 0, 0, 1, 1, 2, 16, 4096, 70000]))
+        crc_of = rng.choice(['size', 'size', 'present', 'padded'])
+        body = d[:size] if crc_of == 'size' else d if crc_of == 'present' else d + bytes(max(0, min(size, n + 70000) - n))
+        t = rng.choice([5000, 5000, 1000, 999])
+        raw = struct.pack('<qII', t, zlib.crc32(body), size) + d
+        op = rng.choice(['M:0:1000:256', L(0, 1000)])
+        cases.append(case([P(0, raw), op, 'G:1000', op], flock=rng.randrange(2)))
+    # G11c: the same boundary exhaustively for small records: bytes present 0..5 x size field 0..present+2 x CRC of (size bytes | bytes present |
+    # zero-padded) x deadline alive/expired, loaded with L
+    for n in range(0, ctx.scale(5, 8)):
+        d = rb(rng, n)
+        for size in range(0, n + 3):
+            for crc_of in ('size', 'present', 'padded'):
+                body = d[:size] if crc_of == 'size' else d if crc_of == 'present' else d + bytes(max(0, size - n))
+                for t in (5000, 999):
+                    cases.append(case([P(0, struct.pack('<qII', t, zlib.crc32(body), size) + d), L(0, 1000), L(0, 1000)], flock=(n + size) % 2))
     # and after real saves and crashes the size field never asks for more than a saved payload
     for _ in range(ctx.scale(40, 300)):
         d_old, d_new = rb(rng, rng.choice([0, 5, 600])), rb(rng, rng.choice([0, 5, 600]))
         total = 16 + len(d_new)
         cases.append(case([S(0, 2000, d_old), K(0, 3000, d_new, [rng.choice([0, 16, total, rng.randrange(16, total + 1)])]), 'M:0:1000:256', L(0, 1000)],
+                          flock=rng.randrange(2)))
+    # G12: a planted file SHORTER than a header (1..15 bytes, unreadable by itself) under a crashed save; when sector 0 is not written
+    # the hole between its end and the first written sector completes its header with zeros (size field 0 or small, CRC chosen by
+    # the planter): KNOWN FINDING short-garbage-header-completed-by-hole when load then returns a value
+    for _ in range(ctx.scale(120, 1200)):
+        ln = rng.choice([1, 2, 7, 8, 9, 11, 12, 12, 13, 14, 15, 15])
+        t = rng.choice([5000, 5000, 200, 90, 3])
+        zs = rng.choice([0, 0, 1, 3])                                 # size field the zero-padded header will carry
+        raw = (struct.pack('<qI', t, zlib.crc32(bytes(zs)) if rng.random() < 0.7 else rng.getrandbits(32)) + struct.pack('<I', zs))[:ln]
+        n_new = rng.choice([0, 5, 496, 497, 600, 1100])
+        k = nsect(n_new)
+        total = 16 + n_new
+        ps = [rng.choice([0, 0, total, 16, rng.randrange(16, total + 1)]) for _ in range(k)]
+        if rng.random() < 0.6:
+            ps[0] = 0
+        pre = [L(0, 100)] if rng.random() < 0.2 else []
+        cases.append(case([P(0, raw)] + pre + [K(0, 6000, rb(rng, n_new, rng.choice([None, b'\x00', b'ab'])), ps), L(0, rng.choice([100, 100, 5500])), 'G:100', L(0, 100)],
+                          flock=rng.randrange(2)))
+    # G13: short writes. The harness makes the j-th write() of the save accept at most k_j bytes; write_all() must continue where the
+    # call stopped (buf += res, repaired in /repo 74c63d5: before, the beginning of the buffer was sent again). The model (write_all_short)
+    # predicts every call (offset, length, CRC) and the file; the oracle demands that the record comes back exactly while alive.
+    for _ in range(ctx.scale(300, 3000)):
+        n = rng.choice([0, 1, 2, 3, 5, 8, 16, 30, 100, 600])
+        d = rb(rng, n, rng.choice([None, None, b'a', b'ab']))
+        ks = [rng.choice([0, 0, 1, 4, 7, 8, 9, 12, 15, 16, 17]) if rng.random() < 0.4 else 0]
+        while len(ks) < 6 and rng.random() < 0.7:
+            ks.append(rng.choice([0, 1, 2, 3, 5, 8, 15, 16, 17, max(1, n // 2), max(1, n - 1), n, n + 1]))
+        if rng.random() < 0.05:
+            d, ks = b'', [4]                                           # the old witness of short-write-corrupt-record (header repeated itself into a valid empty record)
+        pre = [S(0, 2000, rb(rng, rng.choice([0, n, n + 7])))] if rng.random() < 0.5 else []
+        cases.append(case(pre + ['W:0:%d:%s:%s' % (rng.choice([3000, 3000, 900]), hexs(d), ','.join(map(str, ks))), L(0, 1000), 'G:1000', L(0, 1000)],
+                          flock=rng.randrange(2)))
+    # G14: short reads. The data read()s of a load are cut to k_j bytes by the harness; read_all() must deposit every piece where the
+    # previous one stopped (repaired in /repo 74c63d5: before, at the start of the buffer, so that a live record failed the CRC test and was
+    # unlinked). A load over short reads must answer exactly like a plain load.
+    for _ in range(ctx.scale(250, 2500)):
+        n = rng.choice([0, 1, 2, 3, 5, 8, 16, 30, 100, 600])
+        d = rb(rng, n, rng.choice([None, None, b'a', b'ab', b'\x00']))
+        ks = []
+        while len(ks) < 5 and rng.random() < 0.75:
+            ks.append(rng.choice([0, 1, 2, 3, 5, 8, max(1, n // 2), max(1, n - 1), n, n + 1]))
+        t = rng.choice([3000, 3000, 900])
+        first = rng.choice([S(0, t, d), S(0, t, d), P(0, hdr(t, d, None, n + rng.choice([0, 1])) + d + rb(rng, rng.choice([0, 2])))])
+        cases.append(case([first, 'D:0:1000:%s' % (','.join(map(str, ks)) if ks else '-'), 'G:1000', L(0, 1000)], flock=rng.randrange(2)))
+        # the same from the first read() on (the 8 + 4 + 4 header bytes go through read_all too), and a gc whose reads are cut
+        hk = [rng.choice([0, 1, 2, 3, 4, 7, 8]) for _ in range(rng.randrange(1, 7))] + ks
+        cases.append(case([first, 'Y:%d:%d' % (rng.choice([1000, 1000, 3001]), rng.choice([1, 2, 3, 7, 8])), 'H:0:1000:%s' % ','.join(map(str, hk)), L(0, 1000)],
                           flock=rng.randrange(2)))
     # G10: threads on one session (per-sid mutex, with and without the fcntl lock): a load that runs while other threads save must see a
     # complete record, never a half-written one (which it would also unlink)
@@ -395,6 +506,17 @@ def gen_e2e_cases(ctx):
         ps = [rng.choice([0, total, rng.randrange(16, total + 1)]) for _ in range(k)]
         ops = (['W:1000:' + emap(old)] if rng.random() < 0.8 else []) + ['C:1100:%s:%s' % (emap(new), ','.join(map(str, ps))), 'R:1200']
         cases.append('E ' + ' '.join(ops))
+    # planted garbage under the public API: a size field far beyond the file (1 MiB .. 4 GiB), a deadline in the future, any CRC; the load runs
+    # with 256 MiB of address space to spare. The answer must be a fresh session and the file must be gone (a std::bad_alloc out of
+    # session_interface::load was the repaired defect garbage-size-field-bad-alloc)
+    for _ in range(ctx.scale(40, 400)):
+        size = rng.choice([2 ** 30, 2 ** 31 - 16, 2 ** 31, 2 ** 32 - 1, 2 ** 20, 2 ** 24 + 1])
+        tail = rb(rng, rng.choice([0, 3, 40]))
+        raw = struct.pack('<qII', rng.choice([5000, I64MAX, 2101]), rng.choice([0, zlib.crc32(tail), rng.getrandbits(32)]), size) + tail
+        ops = ['W:1000:' + emap(mk()), 'J:' + hexs(raw), 'B:1100:256', 'R:1100']
+        if rng.random() < 0.5:
+            ops += ['W:1200:' + emap(mk()), 'R:1300']
+        cases.append('E ' + ' '.join(ops))
     # histories
     for _ in range(ctx.scale(500, 6000)):
         clock = 1000
@@ -449,7 +571,11 @@ def oracle_e2e(case_line, out):
             must = None
         elif a[0] == 'N':
             adm, must, forgot = {}, None, True
-        elif a[0] == 'R':
+        elif a[0] == 'J':
+            # unreadable garbage planted over the session file (the generator plants only records that a correct reader refuses)
+            if res == 'J[1]':
+                adm, must = {}, None
+        elif a[0] in ('R', 'B'):
             now = int(a[1])
             if res == 'R=none':
                 if must is not None and now <= adm[must]:
@@ -518,6 +644,8 @@ def oracle(case_line, out):
     cands = [[] for _ in range(n)]       # saves whose header may be in the file
     dead = [None] * n                    # known first-8-bytes state: ('t', deadline) | ('short',) | None unknown
     known_absent = [True] * n
+    shortw = [False] * n                 # a save with cut-short write() calls is (part of) what the file holds
+    shortp = [None] * n                  # planted file shorter than a header that a crashed save may have extended (bytes, crashed?)
     prev = {}
     for tok_in, tok_out in zip(ops, o):
         if 'EXC(' in tok_out:
@@ -544,13 +672,19 @@ def oracle(case_line, out):
                 if prev != summ:
                     return ('invalid-cookie-touched-storage', 'an operation with a cookie that names no stored session changed the directory')
                 continue
+        big = None
+        if '!alloc=' in res:
+            res, big = res.split('!alloc=')
         if op == 'M':
             if res == 'M=EXC':
-                i = int(a[1])
                 return ('garbage-size-field-bad-alloc',
-                        'load threw std::bad_alloc (and removed nothing) with %s MiB of address space to spare: read_from_file allocates the buffer from '
-                        'the size field before it knows the file length' % a[3])
+                        'load threw std::bad_alloc (and removed nothing) with %s MiB of address space to spare%s: read_from_file must compare '
+                        'the size field with the file length before it allocates the buffer' % (a[3], ' (request of %s bytes)' % big if big else ''))
             op, a, res = 'L', ['L', a[1], a[2]], 'L' + res[1:]
+        if big is not None:
+            return ('load-allocated-beyond-file',
+                    'load asked operator new for %s bytes in one request although the session file is shorter than that (and than 4096 bytes): '
+                    'a buffer was sized from the size field without checking it against the file length' % big)
         if op == 'U':
             op, res = 'T', 'T' + res[1:]
         if op == 'T':
@@ -559,16 +693,32 @@ def oracle(case_line, out):
                         'that no thread wrote: ' + res[:80])
             a = ['S', a[1], a[2], hexs(b'final')]
             op = 'S'
+        cut_read = False
+        if op in ('D', 'H'):
+            # a load whose read() calls (D: for the data, H: from the first one, header fields included) are cut short: judged like a load
+            cut_read = any(int(x) != 0 for x in a[3].split(',')) if a[3] != '-' else False
+            op, a, res = 'L', ['L', a[1], a[2]], 'L' + res[1:]
+        if op == 'Y':
+            # a gc whose read() calls are all cut to k bytes: judged like a gc
+            op, a, res = 'G', ['G', a[1]], 'G' + res[1:]
+        cut_write = False
+        if op == 'W':
+            # a save whose write() calls were cut short: write_all advances its buffer (repaired in /repo 74c63d5), so this is a complete save
+            ks = [] if a[4] == '-' else [int(x) for x in a[4].split(',')]
+            cut_write = any(k != 0 for k in ks)
+            op = 'S'
         if op in ('S', 'K'):
             i, t, d = int(a[1]), int(a[2]), unhex(a[3])
             if op == 'S':
-                adm[i], must[i], cands[i], dead[i] = {(t, d)}, (t, d), [(t, d)], ('t', t)
+                adm[i], must[i], cands[i], dead[i], shortp[i], shortw[i] = {(t, d)}, (t, d), [(t, d)], ('t', t), None, cut_write
                 if i not in summ:
                     return ('save-left-no-file', 'no file after a completed save')
             else:
                 adm[i] = set(adm[i]) | {(t, d)}
                 must[i], dead[i] = None, None
                 cands[i] = cands[i] + [(t, d)]
+                if shortp[i] is not None:
+                    shortp[i] = (shortp[i][0], True)
             known_absent[i] = False
         elif op == 'P':
             i, raw = int(a[1]), unhex(a[2])
@@ -578,20 +728,32 @@ def oracle(case_line, out):
             cands[i] = [rec] if rec else []
             dead[i] = ('t', struct.unpack('<q', raw[:8])[0]) if len(raw) >= 8 else ('short',)
             known_absent[i] = False
+            shortp[i] = (raw, False) if 0 < len(raw) < 16 else None
+            shortw[i] = False
         elif op == 'X':
             i = int(a[1])
             if i in summ:
                 return ('remove-left-file', 'file still present after remove')
-            adm[i], must[i], cands[i], dead[i], known_absent[i] = set(), None, [], None, True
+            adm[i], must[i], cands[i], dead[i], known_absent[i], shortp[i], shortw[i] = set(), None, [], None, True, None, False
         elif op == 'L':
             i, now = int(a[1]), int(a[2])
             if res == 'L=none':
                 if i in summ:
                     return ('unreadable-file-not-removed', 'load reported no session but left the file in place')
                 if now > 0 and must[i] is not None and must[i][0] >= now:
+                    if cut_read:
+                        return ('short-read-live-session-removed',
+                                'a read() of the data returned fewer bytes than asked during load and load reported no session (and unlinked the file) '
+                                'although the record is intact and unexpired (deadline %d, %d bytes): read_all() must advance its buffer by what '
+                                'read() returned' % (must[i][0], len(must[i][1])))
+                    if shortw[i]:
+                        return ('short-write-corrupt-record',
+                                'a save during which write() accepted fewer bytes than asked reported success, but the record it stored is not '
+                                'readable (deadline %d, %d bytes): write_all() must advance its buffer by what write() accepted'
+                                % (must[i][0], len(must[i][1])))
                     return ('live-session-lost', 'load reported no session although an intact unexpired record (deadline %d, %d bytes) was there'
                             % (must[i][0], len(must[i][1])))
-                adm[i], must[i], cands[i], dead[i], known_absent[i] = set(), None, [], None, True
+                adm[i], must[i], cands[i], dead[i], known_absent[i], shortp[i], shortw[i] = set(), None, [], None, True, None, False
             else:
                 ts, hx_ = res[2:].split('.')
                 got = (int(ts), unhex(hx_))
@@ -600,6 +762,11 @@ def oracle(case_line, out):
                 if now > 0:
                     if got[0] < now:
                         return ('expired-session-returned', 'load returned a session whose deadline %d is before now %d' % (got[0], now))
+                    if must[i] is not None and got != must[i] and shortw[i]:
+                        return ('short-write-corrupt-record',
+                                'a save of deadline %d, %d bytes during which write() accepted fewer bytes than asked reported success, and load then '
+                                'returned deadline %d with %d bytes: write_all() must advance its buffer by what write() accepted'
+                                % (must[i][0], len(must[i][1]), got[0], len(got[1])))
                     if must[i] is not None and got != must[i] and must[i][0] >= now:
                         return ('load-returned-unsaved-value', 'intact record (deadline %d, %d bytes) but load returned deadline %d, %d bytes'
                                 % (must[i][0], len(must[i][1]), got[0], len(got[1])))
@@ -611,6 +778,13 @@ def oracle(case_line, out):
                                     'after a torn save load returned %d bytes that carry the deadline, length and CRC-32 of the header of a '
                                     'saved value but are not that value (mixture of old and new bytes): got %s, header belongs to %s'
                                     % (len(got[1]), got[1][:32].hex(), coll[0][1][:32].hex()))
+                        if shortp[i] is not None and shortp[i][1]:
+                            pt, pc, pz = struct.unpack('<qII', shortp[i][0] + bytes(16 - len(shortp[i][0])))
+                            if got[0] == pt and len(got[1]) == pz and zlib.crc32(got[1]) == pc:
+                                return ('short-garbage-header-completed-by-hole',
+                                        'a planted file of %d bytes (shorter than a header, unreadable) was extended by a crashed save that did not '
+                                        'write sector 0; the hole completed its header with zeros and load returned deadline %d with %d bytes, '
+                                        'which no save wrote' % (len(shortp[i][0]), got[0], len(got[1])))
                         return ('load-returned-unsaved-value', 'load returned deadline %d data %s (%d bytes), which no earlier save wrote'
                                 % (got[0], got[1][:32].hex(), len(got[1])))
                 adm[i], must[i] = {got}, got
@@ -630,12 +804,12 @@ def oracle(case_line, out):
                 if gone and i in summ:
                     return ('gc-kept-dead-file', 'gc at %d kept a file whose timestamp is unreadable or past (%s)' % (now, dead[i]))
                 if i not in summ:
-                    adm[i], must[i], cands[i], dead[i], known_absent[i] = set(), None, [], None, True
+                    adm[i], must[i], cands[i], dead[i], known_absent[i], shortp[i], shortw[i] = set(), None, [], None, True, None, False
         else:
             return ('bad-output', 'unknown op')
         # no operation may touch another file
         for j in range(n):
-            if op in ('S', 'K', 'P', 'X', 'L') and j != int(a[1]) and prev.get(j) != summ.get(j):
+            if op in ('S', 'K', 'W', 'P', 'X', 'L', 'D') and j != int(a[1]) and prev.get(j) != summ.get(j):
                 return ('foreign-file-changed', 'operation %s changed file %d' % (tok_in[:40], j))
         prev = summ
     return None
@@ -643,17 +817,17 @@ def oracle(case_line, out):
 
 def nontrivial(case_line, out):
     if case_line.startswith('E '):
-        return ' C:' in case_line
-    return ' K:' in case_line or ' P:' in case_line or ' G:' in case_line or ' V:' in case_line or ' Q:' in case_line or ' T:' in case_line or ' U:' in case_line or ' M:' in case_line
+        return ' C:' in case_line or ' J:' in case_line
+    return ' K:' in case_line or ' W:' in case_line or ' D:' in case_line or ' H:' in case_line or ' Y:' in case_line or ' P:' in case_line or ' G:' in case_line or ' V:' in case_line or ' Q:' in case_line or ' T:' in case_line or ' U:' in case_line or ' M:' in case_line
 
 
 def classify(case_line, out):
     if case_line.startswith('E '):
         last = [x for x in out.split(' ') if x.startswith('R=')]
-        return 'api:' + ('crash' if ' C:' in case_line else 'save-load') + (':none' if last and last[-1].startswith('R=none') else ':some' if last else '')
+        return 'api:' + ('crash' if ' C:' in case_line else 'garbage' if ' J:' in case_line else 'save-load') + (':none' if last and last[-1].startswith('R=none') else ':some' if last else '')
     ops = case_line.split()[2:]
     kinds = set(x[0] for x in ops)
-    k = 'cookie' if kinds == {'V'} else 'threads' if 'T' in kinds else 'processes' if 'U' in kinds else 'crash' if 'K' in kinds else 'garbage' if 'P' in kinds else 'gc' if 'G' in kinds else 'save-load'
+    k = 'cookie' if kinds == {'V'} else 'short-write' if 'W' in kinds else 'short-read' if ('D' in kinds or 'H' in kinds or 'Y' in kinds) else 'threads' if 'T' in kinds else 'processes' if 'U' in kinds else 'crash' if 'K' in kinds else 'garbage' if 'P' in kinds else 'gc' if 'G' in kinds else 'save-load'
     if k == 'crash':
         ks = [x for x in ops if x[0] == 'K']
         ns = len(ks[-1].split(':')[4].split(','))
@@ -668,52 +842,65 @@ def run(ctx):
     errs = vlib.gen_coq(GEN)
     for n, e in errs:
         ctx.broke('translator cxx2v failed on %s (tie to source broken)' % n, e)
+    e = gen_sid_leaf(ctx)
+    if e:
+        ctx.broke('translator cxx2v failed on session_sid::valid_sid (tie to source broken)', e)
     res = vlib.coq_props('C18')
     ctx.proof(res)
     ctx.coverage['trusted_base'] = [
         'Coq 8.16.1 kernel, vm_compute (collision witness, examples, 256-entry CRC table sweep); no native_compute',
-        'tools/cxx2v.py + clang JSON AST (CRC table of private/crc32.h, via harness/C18_crc_tu.cpp)',
+        'tools/cxx2v.py + clang JSON AST (CRC table of private/crc32.h, via harness/C18_crc_tu.cpp; per-character test of session_sid::valid_sid, '
+        're-wrapped from the transducer form by checks/C18.py:gen_sid_leaf)',
         'extraction: ExtrOcamlBasic only, OCaml 4.13.1',
         'harness/C18_session.cpp (same interposition and materialisation, public session API, judged by the oracle only)',
-        'harness/C18_filestore.cpp (interposed write()/time(), crash-state materialisation from the recorded writes, own bitwise CRC for '
+        'harness/C18_filestore.cpp (interposed write()/read()/time()/operator new, crash-state materialisation from the recorded writes, own bitwise CRC for '
         'file summaries), ocaml/C18_driver.ml, checks/C18.py (generators; oracle with Python struct/zlib as reference reader)',
         'hand model of session_posix_file_storage.cpp control flow (coq/C18/Defs.v), tied by correspondence',
         'crash model: 512-byte sectors reach the disk independently, each showing a prefix of the header+data stream; 16-byte header atomic; '
         'unwritten bytes of an extended file read as zero; no truncation']
     ctx.assumptions = ['clock > 0 at load time (an all-zero hole is a valid empty record with deadline 0 otherwise)',
                        'payload shorter than 2^31 bytes; deadlines fit int64; bytes < 256',
-                       'old file empty/absent or at least 16 bytes (a 1..15-byte old file extended by the crash could complete a header with zeros)',
+                       'C18_crash_safe: old file empty/absent or at least 16 bytes; C18_crash_safe_any_old: no hypothesis on the old file, which is then read '
+                       'zero-padded to 16 bytes (a 1..15-byte planted file extended by the crash completes its header with hole zeros: KNOWN FINDING)',
                        'little-endian target with the 16-byte struct {int64,uint32,uint32} unpadded (x86-64)',
-                       'every write() of a regular file is complete (no short writes)']
-    exe, err = vlib.build_harness('C18_filestore', ['C18_filestore.cpp'])
+                       'every write() of a regular file is complete, except in the short-transfer theorems and scripts (C18_short_*, C18_read_short_eq, C18_xhistory_*, ops W and D), where any cut pattern is allowed; reads of the three header fields are complete']
+    # the two harnesses and the extracted model are independent builds: run them side by side
+    import concurrent.futures
+    with concurrent.futures.ThreadPoolExecutor(3) as ex:
+        f1 = ex.submit(vlib.build_harness, 'C18_filestore', ['C18_filestore.cpp'])
+        f2 = ex.submit(vlib.build_model, 'C18', 'C18_driver.ml', 'c18m')
+        f3 = ex.submit(vlib.build_harness, 'C18_session', ['C18_session.cpp'])
+        (exe, err), (mexe, err_m), (exe2, err2) = f1.result(), f2.result(), f3.result()
     if not exe:
         ctx.broke('harness build failed', err)
         return
-    mexe, err = vlib.build_model('C18', 'C18_driver.ml', 'c18m')
     if not mexe:
-        ctx.broke('model extraction/build failed', err)
-    exe2, err = vlib.build_harness('C18_session', ['C18_session.cpp'])
+        ctx.broke('model extraction/build failed', err_m)
     if not exe2:
-        ctx.broke('end-to-end harness build failed', err)
+        ctx.broke('end-to-end harness build failed', err2)
         return
     cases = ctx.replay_cases if ctx.replay_cases is not None else vlib.corpus_cases('C18') + gen_cases(ctx) + gen_e2e_cases(ctx)
     ecases = [c for c in cases if c.startswith('E ')]
     cases = [c for c in cases if not c.startswith('E ')]
     ctx.coverage['statement_hypotheses'] = ['s64_ok t', 'bytes_ok d', 'small d (< 2^31 bytes)', 'ps_ok ps (per-sector progress 0 or >= 16)',
-                                            'old_ok F (absent/empty or >= 16 bytes; preserved by every history: C18_history_old_ok)', '0 < now']
+                                            'old_ok F (absent/empty or >= 16 bytes; preserved by every history: C18_history_old_ok; dropped in C18_crash_safe_any_old)', '0 < now']
     ctx.coverage['rule'] = ('a case is a script on the real session_file_storage in a scratch directory: complete saves S, crashed saves K (the real '
                             'save runs with write() recorded, then sector s of the file is set to the state after p_s bytes of the recorded stream '
-                            'on top of the earlier content), raw garbage P, load L at a given clock, gc G at a given clock, remove X; after every '
+                            'on top of the earlier content), raw garbage P, load L at a given clock, gc G at a given clock, remove X, load under an address-space '
+                            'limit M, save with write() calls cut short W, load with data read() calls cut short D / with all read() calls cut short H, gc with every read() cut short Y, session_sid::valid_sid V / load Q, threads T, processes U; after every '
                             'operation the directory (length + CRC of every file) is reported. Exhaustive: payloads 0..6 bytes (0..11 thorough) x old state '
                             '{absent, shorter, equal, longer, garbage} x every byte progress x 3 clock positions x both deadline orders. Sampled '
                             '(seeded): 5 (18 thorough) multi-sector sizes around sector boundaries x 4 old shapes x (stream prefix x all sector subsets, and '
                             'independent per-sector progress); int64 deadline boundaries; garbage headers/lengths/names; gc directories; random '
                             'histories; session_sid::valid_sid on cookies around every clause and session_sid::load on crash states; threads saving and loading '
-                            'one session concurrently; constructed CRC collisions; files shorter than their size field with the CRC of the zero-padded data. Non-trivial = script contains a crashed save, a garbage file or a gc; '
+                            'one session concurrently; saves whose write() calls are cut short (interposed), compared call by call with the model; loads whose data read() calls are cut short; constructed CRC collisions; files shorter than their size field with the CRC of the zero-padded data; planted files whose '
+                            'size field is 1-4 GiB or just around the number of bytes present (with and without trailing bytes), loaded with 256 MiB of address space to '
+                            'spare and with every operator new of the load watched (a single request above max(file length, 4096) is a violation). Non-trivial = script contains a crashed save, a short write/read, a garbage file, a cookie test, concurrency or a gc; '
                             'distinct = distinct script lines. A second family (lines starting with E, no model, oracle only) drives the public API: '
                             'session_interface over a session_pool with file storage (session_interface::save/load -> session_sid -> '
                             'session_file_storage) with one cookie jar: saves W, crashed saves C (materialised from the recorded write() calls of the '
-                            'real save as above, every byte progress for single-sector values), loads R at clocks around the deadlines, cookie loss N; '
+                            'real save as above, every byte progress for single-sector values), loads R at clocks around the deadlines, cookie loss N, unreadable garbage with a '
+                            'huge size field planted over the session file J and loaded under an address-space limit B; '
                             'a load must return a complete key/value map that an earlier save wrote and whose deadline has not passed, or nothing.')
     ctx.coverage['exhaustive'] = False
     # tmpfs: the scripts create and unlink tens of thousands of small files (ext4 journalling makes that 50x slower)
